@@ -21,8 +21,8 @@ def _count(fired, name, n=1):
 
 # ---- R2: reader monomorphisation -------------------------------------------------------------
 R2_SUBS = [
-    (r"<\s*'a\s*,\s*'b\s*:\s*'a\s*,\s*R\s*:\s*Read\s*>", ''),
-    (r"<\s*'a\s*,\s*R\s*:\s*Read\s*>", ''),
+    (r"<\s*'a\s*,\s*'b\s*:\s*'a\s*,\s*R\s*:\s*Read\s*>", "<'a>"),
+    (r"<\s*'a\s*,\s*R\s*:\s*Read\s*>", "<'a>"),
     (r"<\s*R\s*:\s*Read\s*>", ''),
     (r"\bScanner<\s*'(?:a|b|_)\s*,\s*R\s*>", 'Scanner'),
     (r"\bScanner<\s*R\s*>", 'Scanner'),
@@ -30,8 +30,8 @@ R2_SUBS = [
     (r"\bParserType<\s*'(?:a|b|_)\s*,\s*R\s*>", 'Parser'),
     (r"\bParserType<\s*R\s*>", 'Parser'),
     (r"\bParser<\s*Lexer\s*>", 'Parser'),
-    (r"&'(?:a|b)\s+mut\b", '&mut'),
-    (r"&'(?:a|b)\s+", '&'),
+    (r"\bRowParser<\s*'a\s*,\s*'b\s*,\s*R\s*>", "RowParser<'a>"),
+    (r"\bRowIterator<\s*'a\s*,\s*'b\s*,\s*R\s*>", "RowIterator<'a>"),
 ]
 
 
@@ -74,7 +74,9 @@ def rule_R6(text, fired):
                                 break
                         m += 1
                     args = [x for x in toks[k + 1:m] if x.kind not in ('ws', 'comment', 'doc')]
-                    for x in args:
+                    for ai, x in enumerate(args):
+                        if x.kind == 'ident' and (ai + 1 >= len(args) or args[ai + 1].text != '('):
+                            continue
                         if x.kind in ('punct', 'ident') and x.text in FORMAT_ARG_BLACKLIST:
                             raise Refuse(f'R6 refuses format! argument containing {x.text!r}: ' + ''.join(y.text for y in toks[i:m + 1]))
                     # preceded by '&' ?
